@@ -1773,7 +1773,8 @@ class _multivalued(Deb822):
             except KeyError:
                 continue
 
-            if self.is_multi_line(contents):
+            if self.is_multi_line(contents) or not contents.strip():
+                # (an empty value is an empty list of records)
                 self[field] = []    # type: ignore
                 updater_method = self[field].append
             else:
